@@ -596,6 +596,149 @@ func runC10(c *Ctx) {
 		}
 	}
 
+	// ------------------------------------------------------------ K7
+	c.Rule("C10.K7", "OWNERSHIP", "every opener gets a trie of its own: what (*cachingDB).OpenTrie and CopyTrie hand out is the result of trie.NewSecure or of a Copy() — never an element of the cache of past tries itself. Two states reopened from the same still-cached root would otherwise share one mutable trie: the writes one of them flushes show up in the other, whose IntermediateRoot no longer returns the roots it was opened from")
+	c.Min(3)
+	{
+		nRet := 0
+		for _, name := range []string{"OpenTrie", "CopyTrie", "OpenStorageTrie"} {
+			fn := w.FnOpt(statePkg, "cachingDB", name)
+			if fn == nil {
+				continue
+			}
+			c.sawFunc(fname(fn))
+			k := 0
+			for _, b := range fn.Blocks {
+				r, ok := b.Instrs[len(b.Instrs)-1].(*ssa.Return)
+				if !ok || b == fn.Recover || len(r.Results) == 0 {
+					continue
+				}
+				res := stripConv(r.Results[0])
+				if isNilConst(res) {
+					continue
+				}
+				// the trie inside the returned value
+				var leaves []ssa.Value
+				var collect func(v ssa.Value, d int)
+				collect = func(v ssa.Value, d int) {
+					v = stripConv(v)
+					if d > 6 {
+						return
+					}
+					switch x := v.(type) {
+					case *ssa.MakeInterface:
+						collect(x.X, d+1)
+					case *ssa.UnOp:
+						if al, isAl := x.X.(*ssa.Alloc); isAl && x.Op == token.MUL {
+							// a result spilled for the deferred calls: the value stored last in the same block (else every store)
+							var direct []ssa.Value
+							for _, rr := range *al.Referrers() {
+								if st, isSt := rr.(*ssa.Store); isSt && st.Addr == ssa.Value(al) {
+									if st.Block() == x.Block() {
+										direct = []ssa.Value{st.Val}
+										break
+									}
+									direct = append(direct, st.Val)
+								}
+							}
+							if len(direct) > 0 {
+								for _, dv := range direct {
+									if !isNilConst(stripConv(dv)) {
+										collect(dv, d+1)
+									}
+								}
+								return
+							}
+							// a struct literal: its pointer-typed fields
+							any := false
+							for _, rr := range *al.Referrers() {
+								if fa, isFA := rr.(*ssa.FieldAddr); isFA {
+									for _, r3 := range *fa.Referrers() {
+										if st, isSt := r3.(*ssa.Store); isSt && st.Addr == ssa.Value(fa) {
+											if _, isPtr := st.Val.Type().Underlying().(*types.Pointer); isPtr && ownerName(st.Val.Type()) == "SecureTrie" {
+												leaves = append(leaves, st.Val)
+												any = true
+											}
+										}
+									}
+								}
+							}
+							if !any {
+								leaves = append(leaves, v)
+							}
+							return
+						}
+						leaves = append(leaves, v)
+					case *ssa.Phi:
+						for _, e := range x.Edges {
+							collect(e, d+1)
+						}
+					default:
+						leaves = append(leaves, v)
+					}
+				}
+				collect(res, 0)
+				for _, lf := range leaves {
+					nRet++
+					c.sites++
+					lv := stripConv(lf)
+					fresh := false
+					if cc, isCall := lv.(*ssa.Call); isCall {
+						if o := calleeObj(cc); o != nil && (o.Name() == "Copy" || o.Name() == "NewSecure" || o.Name() == "New") {
+							fresh = true
+						}
+					}
+					if ex, isEx := lv.(*ssa.Extract); isEx {
+						if cc, isCall := ex.Tuple.(*ssa.Call); isCall {
+							if o := calleeObj(cc); o != nil && (o.Name() == "NewSecure" || o.Name() == "New") {
+								fresh = true
+							}
+						}
+					}
+					c.Check(fmt.Sprintf("%s#hands-out-a-trie-of-its-own-%d", fname(fn), k), r.Pos(), fresh, ifelse(fresh, "result of NewSecure / Copy()", "the trie handed out is "+termOf(lv, 3)+", not a new trie or a copy: several states opened from the same cached root share one mutable trie"))
+					k++
+				}
+			}
+		}
+		if nRet == 0 {
+			c.Undecided(statePkg+".cachingDB#trie-openers", token.NoPos, "no trie-returning method of cachingDB found")
+		}
+	}
+
+	// ------------------------------------------------------------ K8
+	c.Rule("C10.K8", "GATE", "the storage root an account is encoded with covers everything written to it: (*stateObject).updateRoot stores data.Root = trie.Hash() on every path, except paths on which the slots were first finalised (finalise / updateTrie called) — emptiness of the pending area says nothing before the dirty slots have been moved into it. A copy taken in the middle of a transaction has un-finalised writes; skipping on an empty pending area encodes the account with its old storage root")
+	c.Min(1)
+	{
+		ur := w.Fn(statePkg, "stateObject", "updateRoot")
+		c.sawFunc(fname(ur))
+		acctRoot := w.Field(statePkg, "Account", "Root")
+		var rootStores, finals []ssa.Instruction
+		for _, fw := range fieldWrites(ur) {
+			if fw.Field == acctRoot {
+				rootStores = append(rootStores, fw.Instr)
+			}
+		}
+		for _, ci := range callInstrs(ur) {
+			if o := calleeObj(ci); o != nil && (o.Name() == "finalise" || o.Name() == "updateTrie") {
+				finals = append(finals, ci.(ssa.Instruction))
+			}
+		}
+		n, bad := 0, 0
+		for _, b := range ur.Blocks {
+			r, ok := b.Instrs[len(b.Instrs)-1].(*ssa.Return)
+			if !ok || b == ur.Recover {
+				continue
+			}
+			n++
+			c.sites++
+			if mustPassBefore(r, rootStores) || mustPassBefore(r, finals) {
+				continue
+			}
+			bad++
+		}
+		c.Check(fname(ur)+"#root-recomputed-unless-finalised-and-empty", ur.Pos(), n > 0 && bad == 0 && len(rootStores) > 0, ifelse(n > 0 && bad == 0 && len(rootStores) > 0, "every return follows the Root store or a finalisation", fmt.Sprintf("%d of %d returns of updateRoot skip the recomputation of the storage root without the dirty slots having been finalised first", bad, n)))
+	}
+
 	// ------------------------------------------------------------ K5
 	c.Rule("C10.K5", "ALWAYS-WITH", "stateObject.updateTrie records in originStorage every value it flushes to the storage trie — update or delete — before the trie write, with the same key and value: the live object's idea of the committed value must equal what a reopened state reads")
 	c.Min(2)
